@@ -145,4 +145,21 @@ example : ([0, 1, 2, 3].map fun k =>
       (insAt sigSchema.fields sigVal [] k (tlv 240 [1, 2])).bind fun b => (parse sigSchema false b).val?)
     = [some sigVal, some sigVal, some sigVal, some sigVal] := rfl
 
+/-- **Non-negative integers have one of four widths.**  A natural-number or time field whose TLV
+    length is not 1, 2, 4 or 8 is REJECTED by every generated decoder, whatever follows (repair
+    F-13e; before it `6a 03 01 02 03` decoded to 66051, `6a 00` to 0 and a nine-byte value lost its
+    first byte — the management protocol then acted on a number nobody had written). -/
+theorem natural_of_other_width_rejected (o : Bool) (l : Nat) (ic : Bool) (rest : Bytes)
+    (hl : natLenOk l = false) :
+    readKind (.natural o) l ic rest = .err 0 ∧ readKind (.time o) l ic rest = .err 0 := by
+  constructor <;> simp [readKind, readNatLoop, hl, Res.bind]
+
+/-- … and the four widths are exactly what the generated encoders write, for every value -/
+theorem encoders_write_accepted_widths (n : Nat) : natLenOk (encNat n).length = true :=
+  natLenOk_encNat n
+
+example : readKind (.natural false) 3 false [1, 2, 3, 9] = .err 0 :=
+  (natural_of_other_width_rejected false 3 false [1, 2, 3, 9] (by decide)).1
+example : ∃ a, readKind (.natural false) 2 false [1, 2, 3, 9] = .ok (.nat 258, [3, 9]) a := ⟨0, by simp [readKind, readNatLoop, natLenOk, readUintLoop, goInt, beDecMod]⟩
+
 end Ndn.C13
